@@ -21,7 +21,7 @@ pub fn prop() -> Prop {
         subs: vec![
             Sub::tape("native_target", 460, 80_000, 4_000_000, |d, cx| run(d, cx, true)),
             Sub::tape("draw_iter_only_target", 460, 80_000, 4_000_000, |d, cx| run(d, cx, false)),
-            Sub::tape("adapter_operations", 120, 60_000, 3_000_000, adapter_operations),
+            Sub::tape("adapter_operations", 200, 60_000, 3_000_000, adapter_operations),
         ],
     }
 }
